@@ -74,6 +74,7 @@ QuickOK(c) ==
            \* entry points that take the service lock for writing, against the synchronous-callback path
            \/ E2(c) \cap Core # {} /\ E2(c) \cap {"rpc_swapout", "msg_req"} # {} /\ c.prep = "ACP" /\ c.chain = "long"
      \/ /\ c.prep \in {"ATB", "ATC"}
+        /\ ~(c.role = "out_sender" /\ c.prep = "ATC")      \* differs from in_receiver/ATC only by rejecting cancel
         /\ \/ E2(c) \subseteq TCore
            \/ E2(c) \cap TCore # {} /\ c.role = "in_receiver" /\ c.prep = "ATC" /\ E2(c) \subseteq TCore \cup {"rpc_resend", "rpc_swapout", "pol_reload"}
      \/ c.restart /\ c.entry["B"] \in {"-", "msg_cancel", "notify", "pay_claim", "notify_obs", "rpc_resend"}
